@@ -71,6 +71,8 @@ def gen_cases(tier, seed):
         if i % 7 == 3 and len(d) >= 2:
             d[rng.randrange(len(d))] = [list(b) for b in d[0]]        # duplicated ranking
         kind = kinds[i % len(kinds)]
+        if not D.universe_of(d):
+            continue                                # the duplication replaced the only non-empty ranking
         names = D.NAME_KINDS[kind](max(D.universe_of(d)) + 1)
         d = D.rename(d, names)
         if kind == "canon" and max(D.universe_of(d)) <= 3 and len(d) <= 3:
